@@ -91,6 +91,12 @@ func (c *chanSt) lenCap(ch any) (int, int) {
 	return n, c.cap
 }
 
+// timerSt: a timer channel fires when the bubble's fake clock reaches deadline.
+type timerSt struct {
+	deadline time.Time
+	period   time.Duration
+}
+
 type lockSt struct {
 	writer  int
 	readers int
@@ -109,42 +115,46 @@ type sched struct {
 	chans    map[uintptr]*chanSt
 	waitRecv map[uintptr]map[*gor]bool // parked goroutines wanting to receive from a channel
 	waitSend map[uintptr]map[*gor]bool
+	timers   map[uintptr]*timerSt // timer channels announced by the time seams
 	addrIdx  map[uintptr]int
 
-	step       int
-	last       *gor
-	switches   int
-	h          hash.Hash
-	sig        hash.Hash64
-	lockSig    hash.Hash64
-	lockAcq    int
-	trace      []string
-	traceFull  bool
-	choices    []int32
-	mapPay     []uint64
-	mapIdx     int
-	sites      map[int32]int
-	probes     map[string]int
-	lockWaits  int
-	stallsHit  int
-	preempts   int
-	mapRanges  int
-	clockJumps int
-	foreign    int
-	extClosed  int
-	stuckAtEnd bool
-	pairs      int
-	selects    int
-	fallbacks  int
-	aux        []uint32
-	auxIdx     int
-	fairKicks  int
-	condWaits  int
-	spawned    int
-	stepCap    int
-	pctPoints  []int
-	pctNext    int
-	progress   *atomic.Int64
+	step        int
+	last        *gor
+	switches    int
+	h           hash.Hash
+	sig         hash.Hash64
+	lockSig     hash.Hash64
+	lockAcq     int
+	trace       []string
+	traceFull   bool
+	choices     []int32
+	mapPay      []uint64
+	mapIdx      int
+	sites       map[int32]int
+	probes      map[string]int
+	lockWaits   int
+	stallsHit   int
+	preempts    int
+	mapRanges   int
+	clockJumps  int
+	timersSeen  int
+	timerFires  int
+	timerSleeps int
+	foreign     int
+	extClosed   int
+	stuckAtEnd  bool
+	pairs       int
+	selects     int
+	fallbacks   int
+	aux         []uint32
+	auxIdx      int
+	fairKicks   int
+	condWaits   int
+	spawned     int
+	stepCap     int
+	pctPoints   []int
+	pctNext     int
+	progress    *atomic.Int64
 
 	phaseWorkers []*gor
 }
@@ -161,6 +171,7 @@ func newSched(seg *Segment, progress *atomic.Int64) *sched {
 		chans:     map[uintptr]*chanSt{},
 		waitRecv:  map[uintptr]map[*gor]bool{},
 		waitSend:  map[uintptr]map[*gor]bool{},
+		timers:    map[uintptr]*timerSt{},
 		addrIdx:   map[uintptr]int{},
 		h:         sha256.New(),
 		sig:       fnv.New64a(),
@@ -274,6 +285,9 @@ func (s *sched) handle(m rt.Msg) {
 			s.foreign++
 		}
 	}
+	if m.Addr != 0 {
+		s.aidx(m.Addr) // first-seen index at park time (one goroutine parks per step: deterministic)
+	}
 	switch m.Kind {
 	case rt.KExit:
 		g.done = true
@@ -329,6 +343,16 @@ func (s *sched) handle(m rt.Msg) {
 			w.signalled = true
 		}
 		s.conds[m.Addr] = nil
+	case rt.KTimer:
+		if m.Addr != 0 {
+			s.chanOf(m.Addr, m.Ch).internal = true // modelled: never the blind fallback
+			if m.Arg == 0 {
+				delete(s.timers, m.Addr)
+			} else {
+				s.timers[m.Addr] = &timerSt{deadline: time.Unix(0, int64(m.Arg)), period: time.Duration(m.NCases)}
+				s.timersSeen++
+			}
+		}
 	}
 	if m.Reply == nil {
 		return
@@ -516,6 +540,9 @@ func (s *sched) recvReady(addr uintptr, ch any, g *gor) (ready, partner bool) {
 		return false, false
 	}
 	c := s.chanOf(addr, ch)
+	if t := s.timers[addr]; t != nil {
+		return !time.Now().Before(t.deadline), false
+	}
 	n, cp := c.lenCap(ch)
 	if n > 0 {
 		return true, false
@@ -684,6 +711,39 @@ func (s *sched) pick0(run []*gor) *gor {
 	}
 }
 
+// timerTaken: a receive on a timer channel is being released: a one-shot timer
+// is spent, a ticker moves to its next tick after now.
+func (s *sched) timerTaken(addr uintptr) {
+	t := s.timers[addr]
+	if t == nil {
+		return
+	}
+	s.timerFires++
+	if t.period <= 0 {
+		delete(s.timers, addr)
+		return
+	}
+	now := time.Now()
+	for !t.deadline.After(now) {
+		t.deadline = t.deadline.Add(t.period)
+	}
+}
+
+// nextTimer returns the earliest pending deadline of a timer some parked goroutine waits for.
+func (s *sched) nextTimer() (time.Time, bool) {
+	var best time.Time
+	found := false
+	for addr, t := range s.timers {
+		if len(s.waitRecv[addr]) == 0 {
+			continue
+		}
+		if !found || t.deadline.Before(best) {
+			best, found = t.deadline, true
+		}
+	}
+	return best, found
+}
+
 // draw makes an auxiliary seeded choice (rendezvous partner, select clause):
 // recorded so that an explicit replay repeats it.
 func (s *sched) draw(n int) int {
@@ -741,6 +801,7 @@ func (s *sched) release(g *gor, run []*gor) {
 		if _, need := s.recvReady(m.Addr, m.Ch, g); need {
 			partner, partnerPay = s.partnerFor(g, m.Addr, false)
 		}
+		s.timerTaken(m.Addr)
 	case rt.KClosePre:
 		if m.Addr != 0 {
 			c := s.chanOf(m.Addr, m.Ch)
@@ -767,6 +828,9 @@ func (s *sched) release(g *gor, run []*gor) {
 			if needs[k] {
 				c := &m.Cases[ready[k]]
 				partner, partnerPay = s.partnerFor(g, c.Addr, c.Send)
+			}
+			if c := &m.Cases[ready[k]]; !c.Send {
+				s.timerTaken(c.Addr)
 			}
 			s.selects++
 		}
@@ -952,6 +1016,27 @@ func (s *sched) loop(cond func() bool) stopReason {
 			return ""
 		}
 		run := s.runnable()
+		if len(run) == 0 {
+			// somebody waits for a timer: let the fake clock reach it
+			if dl, ok := s.nextTimer(); ok {
+				if d := time.Until(dl); d > 0 {
+					time.Sleep(d)
+					s.timerSleeps++
+					continue
+				}
+			}
+		}
+		if len(run) > 0 && s.seg.MidJumpPPM > 0 {
+			// clock jump in the middle of calls: everybody is parked, so the fake clock just moves; a
+			// goroutine that was about to run finds that seconds have passed (a stalled consumer, a GC pause)
+			x := splitmix{s: s.seg.Seed ^ uint64(s.step)*0xd1342543de82ef95 ^ 0x4a}
+			if int(x.next()%1_000_000) < s.seg.MidJumpPPM {
+				d := time.Duration(1+x.next()%10_000) * time.Millisecond
+				time.Sleep(d)
+				s.clockJumps++
+				run = s.runnable() // timers may have become due
+			}
+		}
 		if len(run) == 0 && s.fallback() {
 			continue
 		}
@@ -1119,6 +1204,8 @@ func (s *sched) fill(res *Result) {
 	res.Preempts = s.preempts
 	res.MapRanges = s.mapRanges
 	res.ClockJumps = s.clockJumps
+	res.Timers = s.timersSeen
+	res.TimerFires = s.timerFires
 	res.Pairs = s.pairs
 	res.Selects = s.selects
 	res.Fallbacks = s.fallbacks
